@@ -283,13 +283,17 @@ def _worker(conn):
     try:
         obj, action = conn.recv()
         kind = action[0]
-        if kind == "execute":
-            obj.execute(action[1])
-        elif kind == "evaluate":
-            obj.evaluate(action[1])
-        elif kind == "scenario":
-            obj.execute(**action[1])
-        conn.send(("ok", obj))  # "noop": the object only travels
+        raised = None
+        try:
+            if kind == "execute":
+                obj.execute(action[1])
+            elif kind == "evaluate":
+                obj.evaluate(action[1])
+            elif kind == "scenario":
+                obj.execute(**action[1])
+        except Exception as exc:  # noqa: BLE001 - reported to the parent, which runs the same action on the original
+            raised = type(exc).__name__
+        conn.send(("ok", obj, raised))  # "noop": the object only travels
     except BaseException as exc:  # noqa: BLE001
         try:
             conn.send(("error", f"{type(exc).__name__}: {exc}", traceback.format_exc()))
@@ -297,6 +301,9 @@ def _worker(conn):
             pass
     finally:
         conn.close()
+
+
+WORKER_RAISED = [None]  # exception type raised by the action in the last worker (None: it ran)
 
 
 def through_worker(obj, action, ctx):
@@ -315,6 +322,7 @@ def through_worker(obj, action, ctx):
             ctx.fail("fork_worker", "the forked worker died without answering")
         if msg[0] != "ok":
             ctx.fail("fork_worker", f"the worker could not restore / run / return the object: {msg[1]}", traceback=msg[2][-1500:])
+        WORKER_RAISED[0] = msg[2]
         return msg[1]
     finally:
         parent.close()
@@ -384,6 +392,7 @@ def discipline_cases(draw, recipe: str | None = None):
         "args": draw(rec.args),
         "gi": draw(st.integers(0, 7)),
         "cache": draw(st.sampled_from(CACHES)),
+        "cache_tol": draw(st.sampled_from([0.0, 0.0, 1e-12])),
         "stats": draw(st.integers(0, 9)) > 0,
         "pre": pre,
         "channel": draw(st.sampled_from(CHANNELS)),
@@ -425,14 +434,17 @@ class Life:
         if self.fd:
             d.set_jacobian_approximation()
         self.cache_kind = cache_kind
+        tol = float(p.get("cache_tol", 0.0))
         if cache_kind == "None":
             d.set_cache(d.CacheType.NONE)
+        elif cache_kind == "Simple" and tol:
+            d.set_cache(d.CacheType.SIMPLE, tolerance=tol)
         elif cache_kind == "MemoryFull":
-            d.set_cache(d.CacheType.MEMORY_FULL)
+            d.set_cache(d.CacheType.MEMORY_FULL, tolerance=tol)
         elif cache_kind == "MemoryFullLocal":  # the twin of an HDF5-cached object: keeps every entry as well
-            d.set_cache(d.CacheType.MEMORY_FULL, is_memory_shared=False)
+            d.set_cache(d.CacheType.MEMORY_FULL, tolerance=tol, is_memory_shared=False)
         elif cache_kind == "HDF5":
-            d.set_cache(d.CacheType.HDF5, hdf_file_path=os.path.join(tmp, "cache.h5"), hdf_node_path="node")
+            d.set_cache(d.CacheType.HDF5, tolerance=tol, hdf_file_path=os.path.join(tmp, "cache.h5"), hdf_node_path="c20_node")
         self.last_input = None
         self.n_exec = 0
         self.n_lin = 0
@@ -554,12 +566,15 @@ def _cp(data):
 def _call(fn):
     """Run fn; return ("ok", value) or ("raises", exception type name)."""
     from vlib.core import Violation
+    from vlib.core import is_harness_fault
 
     try:
         return "ok", fn()
     except Violation:
         raise
     except Exception as exc:  # noqa: BLE001
+        if is_harness_fault(exc):
+            raise
         return "raises", type(exc).__name__
 
 
@@ -578,6 +593,10 @@ def case_discipline(p, ctx):
         LOOSE_DTYPE[0] = False
         _forget_hdf5(tmp)
         shutil.rmtree(tmp, ignore_errors=True)
+
+
+def _has_operator_block(jac) -> bool:
+    return any(not isinstance(b, np.ndarray) and not hasattr(b, "toarray") for blocks in (jac or {}).values() for b in blocks.values())
 
 
 def _forget_hdf5(tmp: str) -> None:
@@ -609,7 +628,7 @@ def _discipline_body(p, ctx, rec, tmp):
         return
     if type(orig).__name__.endswith("SG") and "Sobieski" in type(orig).__name__ and ctx.known("sobieski_sg_unpicklable"):
         return
-    if getattr(orig, "matrix_free_jacobian", False) and life.n_lin and ctx.known("linear_discipline_matrix_free_jac_unpicklable"):
+    if getattr(orig, "matrix_free_jacobian", False) and _has_operator_block(orig.jac) and ctx.known("linear_discipline_matrix_free_jac_unpicklable"):
         return
 
     # the twin is only needed where the original may not write new cache entries any more
@@ -631,7 +650,9 @@ def _discipline_body(p, ctx, rec, tmp):
     if channel == "fork":
         # the worker executed once more: do the same on the reference side
         ref_for_worker = twin if twin is not None else orig
-        ref_for_worker.execute(_cp(worker_input))
+        r = _call(lambda: ref_for_worker.execute(_cp(worker_input)))
+        ctx.check((r[1] if r[0] == "raises" else None) == WORKER_RAISED[0], "fork_worker",
+                  f"executing in the worker: {WORKER_RAISED[0] or 'ok'}; executing the original here: {r[1] if r[0] == 'raises' else 'ok'}")
         if twin is None:
             before = snapshot(orig, stats, probe)
         else:
@@ -664,14 +685,17 @@ def _discipline_body(p, ctx, rec, tmp):
         ctx.cls("hdf5:restored_attached")
     if life.last_input is not None and cache_kind != "None" and channel != "fork":
         # re-executing the last pre-pickling input: a hit on the original must be a hit on the restored object
-        n_o = orig.execution_statistics.n_executions if stats else None
+        # (HDF5: the original does not touch the shared node any more, its identically used twin stands in)
+        same = twin if twin is not None else orig
+        n_o = same.execution_statistics.n_executions if stats else None
         n_r = restored.execution_statistics.n_executions if stats else None
-        o1 = plain(dict(orig.execute(_cp(life.last_input))))
-        o2 = plain(dict(restored.execute(_cp(life.last_input))))
-        d = diff(o1, o2)
+        o1 = _call(lambda: plain(dict(same.execute(_cp(life.last_input)))))
+        o2 = _call(lambda: plain(dict(restored.execute(_cp(life.last_input)))))
+        ctx.check(o1[0] == o2[0], "cache_hit", f"re-executing the last input: original {o1[0]}, restored {o2[0]} ({o1[1] if o1[0] == 'raises' else o2[1]})"[:300])
+        d = diff(o1[1], o2[1])
         ctx.check(d is None, "cache_hit", f"re-executing the last input gives different data: {d}")
         if stats:
-            d_o = orig.execution_statistics.n_executions - n_o
+            d_o = same.execution_statistics.n_executions - n_o
             d_r = restored.execution_statistics.n_executions - n_r
             ctx.check(d_o == d_r, "cache_hit", f"re-executing the last input ran the original {d_o} time(s) and the restored object {d_r} time(s)")
             ctx.cls("cache_hit_on_both" if d_o == 0 else "cache_miss_on_both")
@@ -679,6 +703,7 @@ def _discipline_body(p, ctx, rec, tmp):
     # ------------------------------------------------------------------ behaviour on generated inputs
     ref = twin if twin is not None else orig
     recorded = []
+    failed_op = False  # an operation rejected by gemseo leaves the objects in status FAILED: later results depend on it
     for post in p["post"]:
         data = life.point(post["u"], post["partial"])
         mode = post["lin"] if rec.linearizable else "no"
@@ -691,6 +716,7 @@ def _discipline_body(p, ctx, rec, tmp):
             r2 = _call(lambda: plain({o: dict(v) for o, v in life.linearize(restored, _cp(data), mode, post["k"]).items()}))
             what = f"linearize[{mode}]"
         if r1[0] == "raises":
+            failed_op = True
             ctx.cls(f"original_raises:{r1[1]}")
             ctx.check(r2 == r1, "same_behaviour", f"{what}: original raises {r1[1]}, restored gives {r2[0]} {r2[1] if r2[0] == 'raises' else ''}")
             continue
@@ -726,7 +752,7 @@ def _discipline_body(p, ctx, rec, tmp):
     ctx.check(d is None, "independence", f"mutating the {who} object ({', '.join(done)}) changed the other one: {d}")
     for m in done:
         ctx.cls(f"mutation:{m}")
-    if (untouched is not orig or twin is None) and not rec.stateful:
+    if (untouched is not orig or twin is None) and not rec.stateful and not failed_op:
         # re-run the comparison on the untouched object: same values as before the mutation
         # (objects whose results depend on the call history are covered by the snapshot comparison only)
         for data, mode, k, expected in recorded:
@@ -886,7 +912,9 @@ def _function_body(p, ctx, tmp):
     db_before = database_view(problem.database) if problem is not None else None
     restored = roundtrip(f, p["channel"], p["protocol"], tmp, ctx, action=("evaluate", wx.copy()))
     if p["channel"] == "fork":
-        f.evaluate(wx.copy())
+        r = _call(lambda: f.evaluate(wx.copy()))
+        ctx.check((r[1] if r[0] == "raises" else None) == WORKER_RAISED[0], "fork_worker",
+                  f"evaluating in the worker: {WORKER_RAISED[0] or 'ok'}; evaluating the original here: {r[1] if r[0] == 'raises' else 'ok'}")
         before = function_view(f, stats)
         db_before = database_view(problem.database) if problem is not None else None
     ctx.check(type(restored) is type(f) and restored is not f, "restored_type", f"restored function is a {type(restored).__name__}")
@@ -1171,8 +1199,9 @@ def _problem_body(p, ctx, tmp):
     n = a["n"]
     problem = R.build_problem(a)
     ctx.cls(f"problem_life:{p['life']}", f"channel:{p['channel']}")
-    lo, hi = -2.0, 3.0
-    to_x = (lambda u: _xs(n, u)) if p["normalized"] else (lambda u: lo + (hi - lo) * _xs(n, u))
+    # points of [0.05, 0.95]^n are valid as normalized and as unnormalized vectors of the space [-2, 3]^n
+    # (a problem preprocessed by a driver keeps that driver's normalisation convention)
+    to_x = lambda u: _xs(n, u)  # noqa: E731
     if p["life"] in ("evaluated", "solved"):
         for u in p["points"]:
             _evaluate(problem, to_x(u), p["normalized"])
@@ -1298,7 +1327,8 @@ def _scenario_body(p, ctx, tmp):
         d = diff(before, scenario_view(scenario, stats))
         ctx.check(d is None, "scenario_independence", f"running the scenario in the worker changed the original: {d}")
         r = _call(lambda: scenario.execute(**post))
-        ctx.check(r[0] == "ok", "scenario_result", f"the worker ran {post['algo_name']} but the original raises {r[1]}")
+        ctx.check((r[1] if r[0] == "raises" else None) == WORKER_RAISED[0], "scenario_result",
+                  f"{post['algo_name']} in the worker: {WORKER_RAISED[0] or 'ok'}; on the original here: {r[1] if r[0] == 'raises' else 'ok'}")
         d = diff(scenario_view(scenario, stats), scenario_view(restored, stats))
         ctx.check(d is None, "scenario_result", f"scenario run in a forked worker and returned differs from the original run here: {d}")
         ctx.cls(f"post_run:{post['algo_name']}")
@@ -1326,14 +1356,30 @@ def _scenario_body(p, ctx, tmp):
 ORACLES = {"discipline": case_discipline, "function": case_function, "space": case_space, "problem": case_problem, "scenario": case_scenario}
 
 
+def _factory_coverage(ctx) -> None:
+    """Which classes of the two factories the recipe table reaches (measured against the live factories)."""
+    from gemseo.disciplines.factory import DisciplineFactory
+    from gemseo.mda.factory import MDAFactory
+
+    factory_classes = set(DisciplineFactory().class_names) | set(MDAFactory().class_names)
+    covered = set()
+    for rec in R.RECIPES.values():
+        covered |= set(rec.classes)
+    ctx.extra["factory_classes_total"] = len(factory_classes) if ctx.shard == 0 else 0
+    ctx.extra["factory_classes_with_recipe"] = len(factory_classes & covered) if ctx.shard == 0 else 0
+    ctx.extra["factory_classes_without_recipe"] = sorted(factory_classes - covered - set(R.SKIPPED))
+    ctx.extra["recipe_notes"] = [f"{r.name}: {r.notes}" for r in R.RECIPES.values() if r.notes]
+
+
 def run(ctx):
     ctx.extra["skipped_classes"] = [f"{k}: {v}" for k, v in sorted(R.SKIPPED.items())]
     ctx.extra["recipes"] = sorted(R.RECIPES)
+    _factory_coverage(ctx)
     # one Hypothesis run per recipe: every class is reached at every seed, a defect of one class does not hide the others
     for name, rec in R.RECIPES.items():
         if rec.kind in ("discipline", "mda"):
-            ctx.drive("discipline", discipline_cases(name), case_discipline, quick=2 + rec.weight // 2, thorough=16 + 12 * rec.weight)
-    ctx.drive("function", function_cases(), case_function, quick=120, thorough=1200)
-    ctx.drive("space", space_cases(), case_space, quick=60, thorough=600)
-    ctx.drive("problem", problem_cases(), case_problem, quick=40, thorough=400)
-    ctx.drive("scenario", scenario_cases(), case_scenario, quick=8, thorough=120)
+            ctx.drive("discipline", discipline_cases(name), case_discipline, quick=3 + rec.weight, thorough=12 + 10 * rec.weight)
+    ctx.drive("function", function_cases(), case_function, quick=120, thorough=1000)
+    ctx.drive("space", space_cases(), case_space, quick=60, thorough=500)
+    ctx.drive("problem", problem_cases(), case_problem, quick=40, thorough=300)
+    ctx.drive("scenario", scenario_cases(), case_scenario, quick=12, thorough=80)
